@@ -7,6 +7,8 @@
                                               parmap_by over the points 0..n-1 with f = identity, the pool
                                               delivering the tasks in the order of the schedule;
                                               predicted = number of chunks announced by get_n_chunks
+     kp <n> <n_jobs> <nsched> { <pos> }*    compute_phase_diagram as it is now (integer chunk size) over the points
+                                              0..n-1, f = identity, pool delivering in the order of the schedule
    Output: "key tokens..." lines followed by "end". *)
 open Model
 open Hexio
@@ -56,6 +58,23 @@ let cmd_pm c =
   out "serial" (s_list string_of_int (serial (fun x -> x) xs));
   out "raises" (match parmap_checked (fun x -> x) pool (ceil_fun ceils) predicted xs with None -> "1" | Some _ -> "0")
 
+let cmd_kp c =
+  let n = next_int c in
+  let jobs = pos_of_z (next_z c) in
+  let sched = next_list c next_nat in
+  let xs = List.init n (fun i -> i) in
+  let pool g tasks = schedule_pool g sched tasks in
+  let cs = koala_chunk_size (nat_of_int n) jobs in
+  let chunks = chunk_tasks_by (fun _ -> z_of_hex (Printf.sprintf "%x" (int_of_nat cs))) xs in
+  out "chunk_size" (s_nat cs);
+  out "predicted" (s_nat (n_chunks_exact (nat_of_int n) cs));
+  out "sizes" (sizes chunks);
+  out "delivered" (s_list (fun (i, _) -> s_nat i) (pool (computation (fun x -> x)) (tag chunks)));
+  (match parmap (fun x -> x) pool jobs xs with
+   | None -> out "raises" "1"
+   | Some r -> out "raises" "0"; out "result" (s_list string_of_int r));
+  out "serial" (s_list string_of_int (serial (fun x -> x) xs))
+
 let () =
   iter_lines (fun line ->
       let c = cursor_of_line line in
@@ -66,6 +85,7 @@ let () =
           | "chq" -> cmd_chq c
           | "ch" -> cmd_ch c
           | "pm" -> cmd_pm c
+          | "kp" -> cmd_kp c
           | _ -> out "error" ("unknown command " ^ cmd))
        with Failure m -> out "error" m);
       print_endline "end")
